@@ -216,6 +216,17 @@ def check(ctx):
         ctx.ob('C08.R5.null-move-not-in-check', 'search:do_null_move', ok,
                'null-move pruning is only tried when the side to move is not in check', site=s.loc(n))
 
+    # ---- R7 the draw cut-offs taken before the mate test rest on C07's predicates --------------------------------------
+    from rules.common import SubCtx
+    import props.C07 as c07
+    sub = SubCtx(ctx)
+    c07.check(sub)
+    bad = [r for r in sub.results if not r[2] and (r[0].startswith('C07.R3') or r[0].startswith('C07.R4') or r[0].startswith('C07.R2'))]
+    ctx.ob('C08.R7.draw-cut', 'is_draw/is_repeated', not bad,
+           'search() and quiescence_search() return VALUE_DRAW on is_repeated()/is_draw() before looking for mate: a position wrongly '
+           'called a material/50-move/repetition draw hides mates (C07.R2-R4)%s'
+           % ('' if not bad else ' — refuted: ' + '; '.join('%s' % r[0] for r in bad)), site=bad[0][4] if bad else s.loc())
+
     # ---- R6 witness ------------------------------------------------------------------------------
     n_as, fails = compile_witness('C08.cc')
     for (fn_, line, msg) in fails:
